@@ -14,7 +14,7 @@ import Logrange.Model.JIterObs
 * `wp.spec <flds> <n> (<ts> <msg> <etags> <efields>)* <k> (<text> <parsed|!>)*` → SPEC: `ok <n> (<ts>/<msg>/<fields>)*` | `reject`
 * `w.reset <maxChunkSize>`                        → `ok`           (all partitions empty)
 * `w.write <part> <n> (<ts> <msg> <fields>)*`     → `calls=[first last cid min max; …] start=c:i end=c:i err=0|1`
-* `w.wp <part> <packet> <k> (<text> <parsed|!>)*`  → server side of one RPC write: `rejected` | `panic` | `n=<events> calls=… err=…`
+* `w.wp <part> <maxRec> <packet> <k> (<text> <parsed|!>)*`  → (maxRec: the record-size limit the ingestor knows, 0 = none) server side of one RPC write: `rejected` | `panic` | `n=<events> calls=… err=…`
 * `w.writef <part> <cancel c|nonew 0|none 0> <n> (<ts> <msg> <fields>)*` → the same under a fault pattern (`serviceWriteF`)
 * `w.read <part> <maxRecordSize>`                 → `ok <n> (<ts>/<msg>/<fields>)*` | `toosmall <k>` (the k-th record, 0-based, exceeds the read buffer)
 * `w.layout <part>`                               → `<count of chunk 1> <count of chunk 2> …`
@@ -127,8 +127,9 @@ def step (s : St) (toks : List String) : St × String :=
     let evs := readEvents n.toNat! rest
     let (j', o) := serviceWrite s.maxSize (s.get p.toNat!) (evs.map recOf)
     (s.set p.toNat! j', showOut o)
-  | "w.wp" :: p :: b :: k :: rest =>
+  | "w.wp" :: p :: mr :: b :: k :: rest =>
     let parse := mkParse (readTable k.toNat! rest)
+    if sizeRejected parse mr.toNat! (unhex b) then (s, "rejected") else
     (match wpDrain parse (unhex b) with
      | .ok (_, es) =>
        if es.any (fun e => hasMark e.fields) then (s, "unknown-text") else
